@@ -50,6 +50,12 @@ func Classify(c Case) (bool, []string) {
 	nt := false
 	labels[fmt.Sprintf("ops=%d", len(c.Ops))] = true
 	labels["base="+c.Base] = true
+	if c.TailEOF {
+		labels["last bytes of the response body arrive together with io.EOF"] = true
+	}
+	if c.Reuse != "" {
+		labels["connection reuse switched on "+c.Reuse+" the first call"] = true
+	}
 	for _, o := range c.Ops {
 		labels["method="+o.Method] = true
 		labels["payload="+o.Payload] = true
